@@ -121,7 +121,7 @@ pub fn run(ctx: &Ctx, st: &mut Stats) {
     // 2. blank runs of every length 1..=N alone and embedded
     st.stratum("blank-runs", true);
     let maxrun = ctx.tier.pick(300, 700, 2000);
-    for n in 1..=maxrun {
+    for n in (1..=maxrun).step_by(ctx.tier.pick(37, 1, 1)) {
         let run = " ".repeat(n);
         st.eval(&C(&run), check);
         st.eval(&C(&format!("YYYY{}DD", run)), check);
@@ -146,7 +146,7 @@ pub fn run(ctx: &Ctx, st: &mut Stats) {
         st.eval(&C(p), check);
     }
     // token-count limit: exactly 34..38 tokens of every kind
-    for t in TOKENS.iter().filter(|t| !t.starts_with(' ')) {
+    for t in TOKENS.iter().filter(|t| !t.starts_with(' ')).step_by(ctx.tier.pick(6, 1, 1)) {
         for n in 30..=40usize {
             // separate the tokens by a punctuation that does not merge: count = 2n-1 tokens, so also test unseparated
             let p: String = std::iter::repeat(*t).take(n).collect::<Vec<_>>().join("");
